@@ -11,6 +11,9 @@
 //!                        | name of a list in the job's "envtab",
 //!                "den": [[kc of firing actions, in order] ..]   // one list per env
 //!               } ..]}
+//! A job with a "tree" field instead of "checks" compares the parser's final action tree at `key`
+//! (after the post-parse passes, e.g. the resolution of v1 `(chord group key)` placeholders) with the
+//! expected tree computed by TLC from spec/ActionTerms.tla (Final): {"id","cfg","key","tree"}.
 //! A parse error of the config is reported per job ("expect_reject": true inverts that).
 //! Output: counts and the list of disagreements (capped), never a verdict.
 use crate::dump::opcode_raw;
@@ -98,6 +101,48 @@ fn fire<T>(sw: &Switch<'_, T>, e: &Env) -> Vec<u16> {
     .collect()
 }
 
+/// The action as a tree in the vocabulary of ActionTerms.tla Final (coords of a chord group sorted).
+pub fn action_tree<T: std::fmt::Debug>(a: &Action<'_, T>) -> Value {
+    use crate::dump::bits;
+    match a {
+        Action::KeyCode(k) => json!({"t":"key","kc":*k as u16}),
+        Action::NoOp => json!({"t":"noop"}),
+        Action::Trans => json!({"t":"trans"}),
+        Action::MultipleActions(acs) => json!({"t":"multi","acs":acs.iter().map(action_tree).collect::<Vec<_>>()}),
+        Action::HoldTap(ht) => json!({"t":"holdtap","timeout":ht.timeout,"thi":ht.tap_hold_interval,
+            "tap":action_tree(&ht.tap),"hold":action_tree(&ht.hold),
+            "cfg": match ht.config {
+                kanata_keyberon::action::HoldTapConfig::Default => "default",
+                kanata_keyberon::action::HoldTapConfig::HoldOnOtherKeyPress => "press",
+                kanata_keyberon::action::HoldTapConfig::PermissiveHold => "release",
+                _ => "custom",
+            }}),
+        Action::TapDance(td) => json!({"t":"tapdance","timeout":td.timeout,
+            "eager":matches!(td.config, kanata_keyberon::action::TapDanceConfig::Eager),
+            "acs":td.actions.iter().map(|x| action_tree(x)).collect::<Vec<_>>()}),
+        Action::OneShot(os) => json!({"t":"oneshot","timeout":os.timeout,"ac":action_tree(os.action)}),
+        Action::Chords(g) => {
+            let mut coords: Vec<(u8, u16, Vec<u32>)> = g.coords.iter().map(|(c, m)| (c.0, c.1, bits(*m))).collect();
+            coords.sort();
+            // (the parser keeps a group's chords in a hash map: listed in ascending mask order)
+            let mut ch: Vec<_> = g.chords.iter().collect();
+            ch.sort_by_key(|(m, _)| *m);
+            let chords: Vec<Value> = ch.iter().map(|(m, ac)| json!({"m":bits(*m),"ac":action_tree(ac)})).collect();
+            let coords: Vec<Value> = coords.iter().map(|(x, y, m)| json!({"x":x,"y":y,"m":m})).collect();
+            json!({"t":"chords","timeout":g.timeout,"coords":coords,"chords":chords})
+        }
+        Action::Fork(f) => json!({"t":"fork","left":action_tree(&f.left),"right":action_tree(&f.right),
+            "trig":f.right_triggers.iter().map(|k| *k as u16).collect::<Vec<_>>()}),
+        Action::Switch(sw) => json!({"t":"switch","cases":sw.cases.iter().map(|(ops, ac, brk)| json!({
+            "ops":ops.iter().map(opcode_raw).collect::<Vec<u16>>(),"ac":action_tree(ac),
+            "brk":matches!(brk, kanata_keyberon::action::switch::BreakOrFallthrough::Break)})).collect::<Vec<_>>()}),
+        other => {
+            let d: String = format!("{other:?}").chars().take(120).collect();
+            json!({"t":"other","dbg":d})
+        }
+    }
+}
+
 pub fn cmd(args: &[String]) -> i32 {
     let f = std::io::BufReader::new(std::fs::File::open(&args[0]).expect("jobs file"));
     crate::install_panic_hook();
@@ -109,6 +154,8 @@ pub fn cmd(args: &[String]) -> i32 {
     let mut parse_errs: Vec<Value> = vec![];
     let mut panics: Vec<Value> = vec![];
     let mut samples: Vec<Value> = vec![];
+    let (mut ntrees, mut n_treemis) = (0u64, 0u64);
+    let mut tree_mis: Vec<Value> = vec![];
     for line in f.lines() {
         let line = line.unwrap();
         if line.trim().is_empty() {
@@ -142,8 +189,7 @@ pub fn cmd(args: &[String]) -> i32 {
                 }
                 n_parse += 1;
                 if parse_errs.len() < cap {
-                    let mut m = format!("{e:?}");
-                    m.truncate(400);
+                    let m: String = format!("{e:?}").chars().take(600).collect();
                     parse_errs.push(json!({"job": job["id"], "err": m,
                         "ids": job["checks"].as_array().map(|c| c.iter().map(|x| x["id"].clone()).collect::<Vec<_>>())}));
                 }
@@ -157,6 +203,28 @@ pub fn cmd(args: &[String]) -> i32 {
             }
         };
         let layout = cfg.layout.b();
+        if !job["tree"].is_null() {
+            // the final action tree (after the post-parse passes) against the one written
+            ntrees += 1;
+            let got = match std::panic::catch_unwind(std::panic::AssertUnwindSafe(|| action_tree(&layout.layers[0][0][key]))) {
+                Ok(g) => g,
+                Err(_) => {
+                    n_panic += 1;
+                    let (loc, msg) = crate::take_panic();
+                    if panics.len() < cap {
+                        panics.push(json!({"id": job["id"], "where": "tree", "loc": loc, "msg": msg}));
+                    }
+                    continue;
+                }
+            };
+            if got != job["tree"] {
+                n_treemis += 1;
+                if tree_mis.len() < cap {
+                    tree_mis.push(json!({"id": job["id"], "expected": job["tree"], "actual": got}));
+                }
+            }
+            continue;
+        }
         let sw = match &layout.layers[0][0][key] {
             Action::Switch(sw) => *sw,
             other => {
@@ -236,7 +304,7 @@ pub fn cmd(args: &[String]) -> i32 {
     }
     let res = json!({"jobs": njobs, "checks": nchecks, "evals": nevals, "ops_compared": nops,
         "n_ops_mismatch": n_opsmis, "n_val_mismatch": n_valmis, "n_parse_errors": n_parse, "n_panics": n_panic,
-        "n_rejected_as_expected": n_rejected_ok,
+        "n_rejected_as_expected": n_rejected_ok, "trees": ntrees, "n_tree_mismatch": n_treemis, "tree_mismatch": tree_mis,
         "ops_mismatch": ops_mis, "val_mismatch": val_mis, "parse_errors": parse_errs, "panics": panics,
         "samples": samples});
     std::fs::write(&args[1], serde_json::to_string(&res).unwrap()).unwrap();
